@@ -28,6 +28,7 @@ type SpecSym struct {
 	Guard     *Term // type invariant of the parameters (byte ranges)
 	ResIv     []*ival // interval of each integer result, derived from the body
 	Uninterpreted bool // no definition: body is panic("uninterpreted ...")
+	Reads     map[string]bool // heap keys the body reads (through pointer parameters): the function denotes a value over the ENTRY heap
 }
 
 type funcSig struct {
@@ -140,9 +141,6 @@ func (d *Defs) sym(fn *ssa.Function) (*SpecSym, error) {
 		if err != nil {
 			return nil, unsupported("spec function %s: parameter %s: %v", fn.Name(), p.Name(), err)
 		}
-		if ps == SRef {
-			return nil, unsupported("spec function %s takes a pointer (pass values)", fn.Name())
-		}
 		v := Const(fmt.Sprintf("x%d!%s", i, sanitizeIdent(p.Name())), ps)
 		s.Params = append(s.Params, v)
 		s.ArgSorts = append(s.ArgSorts, ps)
@@ -206,6 +204,24 @@ func (d *Defs) sym(fn *ssa.Function) (*SpecSym, error) {
 		}
 		s.Bodies = []*Term{r.T}
 		s.ResIv = []*ival{r.Iv}
+	}
+	// heap reads: the body was run on a fresh state, so everything it read through its pointer
+	// parameters is an init!<key> constant, i.e. the heap at entry of the function under proof. Calls
+	// are only allowed where the current heap still is the entry heap for these keys (specCall).
+	s.Reads = map[string]bool{}
+	for _, b := range s.Bodies {
+		fc := map[string]*Term{}
+		FreeConsts(b, fc)
+		for n := range fc {
+			if strings.HasPrefix(n, "init!") {
+				s.Reads[strings.TrimPrefix(n, "init!")] = true
+			}
+		}
+	}
+	for dep := range s.deps {
+		for k := range dep.Reads {
+			s.Reads[k] = true
+		}
 	}
 	s.inProg = false
 	d.order = append(d.order, s)
